@@ -72,6 +72,8 @@ impl<const N: usize, T: Send + Sync> ConIterOfArray<N, T> {
 
         let mut vec = Vec::from_raw_parts(array.as_mut_ptr(), N, 0);
         let right_vec = vec.split_off(left_len);
+        // the left part is not owned by `vec`: its elements have already been yielded
+        std::mem::forget(vec);
 
         *man_array = ManuallyDrop::new(array);
         right_vec
@@ -187,6 +189,8 @@ impl<const N: usize, T: Send + Sync> ConcurrentIter for ConIterOfArray<N, T> {
     fn into_seq_iter(self) -> Self::SeqIter {
         let current = self.counter().current();
         let remaining_vec = unsafe { self.split_off_right(current.min(N)) };
+        // the remaining elements are now owned by `remaining_vec`, `Drop` must not drop them again
+        std::mem::forget(self);
         remaining_vec.into_iter()
     }
 
